@@ -273,6 +273,14 @@ func typedCase(seed uint64, idx int) (g *gen, doc interface{}, generic interface
 		for _, e := range []string{"[length(Nums), length(Lists[0]), length(Nums)]", "[length(Lists[0]), length(Nums)]", "Lists[*].length(@)"} {
 			exprs = append(exprs, typedExpr{typed: e, generic: e, cmp: true})
 		}
+	}
+	// conditions that are TRUE for a nil pointer element, with a right-hand side that does not map null to null
+	for _, e := range []string{"PKids[?!@].type(@)", "PKids[?!Label].not_null(Label, 'none')", "PLeafs[?!@].type(@)", "PLeafs[?!Name].not_null(Name, `1`)", "PKids[?@ == `null`] | length(@)", "PLeafs[?!@] | length(@)", "PKids[?!Leaf].type(Leaf)"} {
+		if g.r.chance(25) {
+			exprs = append(exprs, typedExpr{typed: e, generic: e, cmp: true})
+		}
+	}
+	if aliased {
 		for _, e := range []string{"[reverse(Lists[0]), reverse(Nums)]", "[sum(Nums), sum(Lists[0])]"} {
 			exprs = append(exprs, typedExpr{typed: e, generic: e})
 		}
@@ -544,6 +552,18 @@ func doTyped(seedS, idxS string) outcome {
 		// must agree with each other (a fast path of one route that knows only generic maps shows up here)
 		if e.nav || e.cmp {
 			wrapped := map[string]interface{}{"w": doc, "z": 1.0}
+			// a nil pointer of the document's type as a VALUE of a generic map / list: null for every navigation
+			nilp := reflect.Zero(reflect.PtrTo(tRoot)).Interface()
+			withNil := map[string]interface{}{"nilp": nilp, "l": []interface{}{nilp, 1.0}}
+			for _, ne := range []string{"nilp.Title", "nilp.Kids[0]", "l[0].Title", "l[*].Title", "nilp.Title || 'd'", "[nilp.Count, l[1]]"} {
+				var rn interface{}
+				var en error
+				if pn, _ := safely(func() { rn, en = jmespath.Search(ne, withNil) }); pn {
+					o.flags = append(o.flags, "typedpanic:"+hexField(ne))
+				} else if en == nil && ne == "nilp.Title" && rn != nil {
+					o.flags = append(o.flags, "typednil:"+hexField(ne))
+				}
+			}
 			we := "w | " + e.typed
 			if strings.HasPrefix(e.typed, "\"") || (len(e.typed) > 0 && (e.typed[0] >= 'A' && e.typed[0] <= 'Z' || e.typed[0] >= 'a' && e.typed[0] <= 'z')) {
 				we = "w." + e.typed
